@@ -132,7 +132,8 @@ def predicates(ctx, fcst, obs, ts, w, ds, desc):
         mpod, mpofd, spod, spofd = (core.dec_nums(x) for x in m[:4])
         mauc = core.dec_num(m[4])
         c2 = dict(desc, cell=sel)
-        if not (core.close_list(p, spod) and core.close_list(q, spofd)):
+        finite_ts = all(math.isfinite(t) for t in ts)
+        if finite_ts and not (core.close_list(p, spod) and core.close_list(q, spofd)):
             ctx.violation("ROC point differs from the weighted fraction of events / non-events with forecast >= t", c2,
                           {"POD": spod, "POFD": spofd}, {"POD": p.tolist(), "POFD": q.tolist()})
         if not (core.close_list(p, mpod) and core.close_list(q, mpofd) and core.close(a, mauc)):
